@@ -2,11 +2,13 @@
    Model/FormFactor.v: the q != 0 branch of Polygon.compute_form_factor_amplitude as a sum of edge
    terms over the vertex cycle (complex numbers as pairs over R).
    Proved: the algebraic laws any Fourier transform of a real density obeys, for the code's formula,
-   for every vertex cycle.  NOT proved: that the edge sum equals the area integral of exp(-i q.r)
-   (Green/Stokes identity) and the polyhedron/sphere analogues; those are decided by correspondence
-   with direct quadrature of the defining integral. *)
+   for every vertex cycle; that each edge term IS the line integral of the plane wave along the edge
+   (Coquelicot RInt); that the polygon amplitude is the sum of the amplitudes of its fan triangles.
+   NOT proved: the planar divergence theorem that turns the boundary integral into the area integral of
+   exp(-i q.r), and the polyhedron/sphere analogues; those are decided by correspondence with direct
+   quadrature of the defining integral. *)
 From Coq Require Import Reals List.
-Require Import Cox.Num.Ops Cox.Geo.Vec Cox.Model.FormFactor Cox.Thm.FormFactorThm.
+Require Import Cox.Num.Ops Cox.Geo.Vec Cox.Model.FormFactor Cox.Thm.FormFactorThm Cox.Thm.FormFactorIntegral.
 Local Open Scope R_scope.
 
 (* F(-q) is the complex conjugate of F(q) *)
@@ -36,3 +38,28 @@ Corollary C12_orientation_free_with_sign_factor :
 Proof.
   intros. rewrite ff_reverse. unfold cscale, copp; simpl. f_equal; ring.
 Qed.
+
+
+(* level 0: int_0^1 exp(i (al + t be)) dt = sinc(be/2) exp(i (al + be/2)), for every al, be (be = 0 included) *)
+Theorem C12_edge_wave_integral :
+  forall al be,
+    @Coquelicot.RInt.RInt Coquelicot.Hierarchy.R_CompleteNormedModule (fun t => cos (al + t * be)) 0 1 = sincR (be / 2) * cos (al + be / 2)
+    /\ @Coquelicot.RInt.RInt Coquelicot.Hierarchy.R_CompleteNormedModule (fun t => sin (al + t * be)) 0 1 = sincR (be / 2) * sin (al + be / 2).
+Proof. intros. split; [apply edge_wave_integral_cos | apply edge_wave_integral_sin]. Qed.
+Print Assumptions C12_edge_wave_integral.
+
+(* ... hence each edge term of the code's formula is  -i ((e x q).n / q^2)  times the plane wave integrated
+   along that edge *)
+Theorem C12_edge_term_is_line_integral :
+  forall n q a b,
+    edge_term n q a b
+    = cscale (vdot Rops (vcross Rops (vsub Rops b a) q) n / vdot Rops q q) (cmul (0, -1) (wave_on_edge q a b)).
+Proof. exact edge_term_is_line_integral. Qed.
+Print Assumptions C12_edge_term_is_line_integral.
+
+(* additivity: the amplitude of any vertex cycle is the sum of the amplitudes of its fan triangles
+   (every chord is traversed once in each direction) - for polygons of any size, convex or not *)
+Theorem C12_polygon_is_sum_of_fan_triangles :
+  forall n q a b l, polygon_ff n q (a :: b :: l) = ff_fan n q a b l.
+Proof. exact ff_is_fan. Qed.
+Print Assumptions C12_polygon_is_sum_of_fan_triangles.
